@@ -381,13 +381,19 @@ fn do_resolve<Fd: AsFd, P: AsRef<Path>>(
                         });
                     }
 
-                    // Verify that we can follow the link.
-                    // MSRV(1.69): Remove &*.
-                    may_follow_link(&*current, &next).with_wrap(|| {
-                        format!(
-                            "component {part:?} is an unsafe symlink that is blocked by fs.protected_symlinks"
-                        )
-                    })?;
+                    // Verify that we can follow the link. Like the kernel
+                    // (which only calls may_follow_link() for WALK_TRAILING),
+                    // fs.protected_symlinks only applies to the trailing
+                    // component of the path being walked -- trailing slashes
+                    // do not make a component any less trailing.
+                    if remaining_components.iter().all(|c| c.is_empty()) {
+                        // MSRV(1.69): Remove &*.
+                        may_follow_link(&*current, &next).with_wrap(|| {
+                            format!(
+                                "component {part:?} is an unsafe symlink that is blocked by fs.protected_symlinks"
+                            )
+                        })?;
+                    }
 
                     // We need a limit on the number of symlinks we traverse to
                     // avoid hitting filesystem loops and DoSing.
